@@ -338,13 +338,42 @@ func (mo *c28Mon) checkSaved(idx, ui int, current, desired, saved []osutil.Mount
 		}
 		want[k]++
 	}
-	// kept entries by (dir, type): used only to classify a failure
-	keptAt := map[string][]string{}
-	for _, rc := range recs {
-		if rc.Action == Keep {
-			k := rc.Entry.Dir + "\x00" + rc.Entry.Type
-			keptAt[k] = append(keptAt[k], rc.Entry.String())
+	// Classification helpers (they only choose the signature). An entry has a
+	// "legitimately kept sibling" when a DIFFERENT entry with the same mount
+	// point and the same fstype was kept for a good reason (equal to a desired
+	// entry, or a helper of a desired entry): the planner's reuse table is
+	// keyed by (dir, fstype) and cannot tell the two apart.
+	normType := func(t string) string {
+		if t == "" {
+			return "none"
 		}
+		return t
+	}
+	keptKeys := map[string]bool{}
+	mountedKeys := map[string]bool{}
+	for _, rc := range recs {
+		switch {
+		case rc.Action == Keep:
+			keptKeys[c28Key(&rc.Entry)] = true
+		case rc.Action == Mount && rc.Err == "":
+			mountedKeys[c28Key(&rc.Entry)] = true
+		}
+	}
+	legitKeptSibling := func(e *osutil.MountEntry) bool {
+		k := c28Key(e)
+		for _, rc := range recs {
+			if rc.Action != Keep || filepath.Clean(rc.Entry.Dir) != filepath.Clean(e.Dir) || normType(rc.Entry.Type) != normType(e.Type) {
+				continue
+			}
+			rk := c28Key(&rc.Entry)
+			if rk == k {
+				continue
+			}
+			if rc.Entry.XSnapdSynthetic() && ids[rc.Entry.XSnapdNeededBy()] || !rc.Entry.XSnapdSynthetic() && want[rk] > 0 {
+				return true
+			}
+		}
+		return false
 	}
 	got := map[string]int{}
 	for i := range saved {
@@ -353,8 +382,7 @@ func (mo *c28Mon) checkSaved(idx, ui int, current, desired, saved []osutil.Mount
 			c.Count("saved_synthetic_entries", 1)
 			if !ids[e.XSnapdNeededBy()] {
 				sig := "C28:saved-profile:stale-helper-entry"
-				if len(keptAt[e.Dir+"\x00"+c28NoneNorm(*e).Type]) > 1 {
-					// kept only because another kept entry has the same (dir, fstype)
+				if keptKeys[c28Key(e)] && legitKeptSibling(e) {
 					sig = "C28:saved-profile:reuse-key-collision:stale-helper-kept"
 				}
 				c.Violation(sig, witness(map[string]interface{}{
@@ -378,40 +406,38 @@ func (mo *c28Mon) checkSaved(idx, ui int, current, desired, saved []osutil.Mount
 	}
 	sort.Strings(missing)
 	sort.Strings(extra)
-	if len(missing) > 0 {
-		sig := "C28:saved-profile:desired-entry-missing:other"
-		// classification: did the planner treat it as "reused" because some
-		// other current entry on the same directory with the same fstype was
-		// kept?
-		for i := range desired {
-			if c28Key(&desired[i]) != missing[0] {
-				continue
-			}
-			mounted := false
-			for _, rc := range recs {
-				if rc.Action == Mount && c28Key(&rc.Entry) == missing[0] {
-					mounted = true
+	for _, mk := range missing {
+		sig := "C28:saved-profile:desired-entry-missing:never-mounted"
+		switch {
+		case keptKeys[mk]:
+			sig = "C28:saved-profile:desired-entry-missing:kept-but-not-recorded"
+		case mountedKeys[mk]:
+			sig = "C28:saved-profile:desired-entry-missing:mounted-but-not-recorded"
+		default:
+			for i := range desired {
+				if c28Key(&desired[i]) == mk && legitKeptSibling(&desired[i]) {
+					sig = "C28:saved-profile:reuse-key-collision:desired-entry-never-mounted"
 				}
 			}
-			if !mounted && len(keptAt[desired[i].Dir+"\x00"+desired[i].Type]) > 0 {
-				sig = "C28:saved-profile:reuse-key-collision:desired-entry-never-mounted"
-			} else if !mounted {
-				sig = "C28:saved-profile:desired-entry-missing:never-mounted"
-			}
 		}
-		c.Violation(sig, witness(map[string]interface{}{"update": ui, "missing": missing, "unexpected": extra}))
+		c.Violation(sig, witness(map[string]interface{}{"update": ui, "entry": mk, "missing": missing, "unexpected": extra}))
 	}
-	if len(extra) > 0 {
+	for _, xk := range extra {
 		sig := "C28:saved-profile:unexpected-entry:other"
-		for i := range saved {
-			if c28Key(&saved[i]) == extra[0] && len(keptAt[saved[i].Dir+"\x00"+saved[i].Type]) > 1 {
-				sig = "C28:saved-profile:reuse-key-collision:stale-entry-kept"
+		switch {
+		case want[xk] > 0:
+			sig = "C28:saved-profile:unexpected-entry:duplicated"
+		case failed[xk]:
+			sig = "C28:saved-profile:unexpected-entry:failed-change-recorded"
+		case keptKeys[xk]:
+			sig = "C28:saved-profile:unexpected-entry:stale-entry-kept"
+			for i := range saved {
+				if c28Key(&saved[i]) == xk && legitKeptSibling(&saved[i]) {
+					sig = "C28:saved-profile:reuse-key-collision:stale-entry-kept"
+				}
 			}
 		}
-		if want[extra[0]] > 0 {
-			sig = "C28:saved-profile:unexpected-entry:duplicated"
-		}
-		c.Violation(sig, witness(map[string]interface{}{"update": ui, "unexpected": extra, "missing": missing}))
+		c.Violation(sig, witness(map[string]interface{}{"update": ui, "entry": xk, "unexpected": extra, "missing": missing}))
 	}
 }
 
